@@ -261,3 +261,5 @@ func shrinkMode(t *testing.T, job *Job) {
 	}
 	writeJSON(job.Out, map[string]any{"ok": true, "tried": tried, "replay": out})
 }
+
+func enumMode(t *testing.T, job *Job) {}
